@@ -140,6 +140,17 @@ def _ph_arr(a):
     return out
 
 
+def _nan_mask(a):
+    """boolean mask of the NaN float constants in a, None if there are none"""
+    if a.dtype == object:
+        m = np.asarray(np.frompyfunc(lambda v: isinstance(v, (float, np.floating)) and math.isnan(v), 1, 1)(a), dtype=bool)
+    elif np.issubdtype(a.dtype, np.floating):
+        m = np.isnan(a)
+    else:
+        return None
+    return m if np.any(m) else None
+
+
 def _mentions_nonfinite(v):
     names = sc.cur().data.get("nonfinite")
     if not names or not isinstance(v, (SR, SC)):
@@ -157,6 +168,7 @@ def _mentions_nonfinite(v):
     return False
 
 
+NAN_EXACT = [False]   # harness switch: NaN constants propagate exactly through +, -, *, / instead of becoming placeholders
 FORK = [False]     # fork mode: symbolic conditions become path decisions (Ctx.branch) instead of ite terms
 
 
@@ -329,7 +341,22 @@ class Interp:
     # -- arithmetic ------------------------------------------------------
     def _bin(self, f, ins, arith=False):
         a, b = _asobj(ins[0]), _asobj(ins[1])
-        if arith:            # +-inf constants met by +, -, *, / become placeholders; max / min treat them exactly
+        if arith:
+            # NaN constants propagate exactly through +, -, *, / (IEEE: any operation with a NaN operand is NaN)
+            ma, mb = (_nan_mask(a), _nan_mask(b)) if NAN_EXACT[0] else (None, None)
+            if ma is not None or mb is not None:
+                shape = np.broadcast_shapes(a.shape, b.shape)
+                m = np.zeros(shape, dtype=bool)
+                if ma is not None:
+                    a = np.where(ma, 1.0, a).astype(object) if a.dtype == object else np.where(ma, 1.0, a)
+                    m |= np.broadcast_to(ma, shape)
+                if mb is not None:
+                    b = np.where(mb, 1.0, b).astype(object) if b.dtype == object else np.where(mb, 1.0, b)
+                    m |= np.broadcast_to(mb, shape)
+                out = np.array(np.broadcast_to(np.asarray(f(_ph_arr(a), _ph_arr(b)), dtype=object), shape), dtype=object)
+                out[m] = float("nan")
+                return [out]
+            # +-inf constants met by +, -, *, / become placeholders; max / min treat them exactly
             a, b = _ph_arr(a), _ph_arr(b)
         return [np.asarray(f(a, b), dtype=object)]
 
